@@ -74,7 +74,7 @@ func (fr *Frame) frameCheckItem(st *State, it modItem, pos token.Pos) {
 	heap := vc.ss.HeapName(it.heapType)
 	var alts []Term
 	if it.elems {
-		alts = append(alts, Le(vc.alloc0, SArr(it.slice)))
+		alts = append(alts, Le(vc.alloc0, SArr(it.slice)), Eq(SArr(it.slice), IntLit(0)))
 	} else {
 		alts = append(alts, Le(vc.alloc0, PArr(it.ptr)))
 	}
@@ -511,6 +511,14 @@ func VerifyFunction(L *Loaded, name string, ct *Contract, prop string) (res *Fun
 					return fr.val(p)
 				}
 			}
+			for _, fv := range fn.FreeVars {
+				if fv.Pos() == token.Pos(cp.Pos) && fv.Name() == cp.Name {
+					vc.dry++
+					t := fr.locLoad(fr.asLoc(fr.val(fv), pointee(fv.Type())), st, token.NoPos)
+					vc.dry--
+					return TV(t)
+				}
+			}
 			fail("modifies clause of %s: cannot bind %s", name, cp.Name)
 			return Val{}
 		}, st)
@@ -555,7 +563,9 @@ func VerifyFunction(L *Loaded, name string, ct *Contract, prop string) (res *Fun
 				if !rp.IsValid() {
 					rp = fn.Pos()
 				}
+				vc.curClauseProps = cl.Props
 				vc.Oblige("post", lab, rp, r.st, g, cl.Src)
+				vc.curClauseProps = nil
 			}
 			for _, gcl := range L.CF.Globals {
 				g := fr.evalClauseWith(gcl, nil, r.st, nil)
@@ -589,7 +599,9 @@ func VerifyFunction(L *Loaded, name string, ct *Contract, prop string) (res *Fun
 			}
 			for _, cl := range ct.Signals {
 				g := fr.evalClause2(cl, p.st, vc.entry, nil, nil)
+				vc.curClauseProps = cl.Props
 				vc.Oblige("signals", fmt.Sprintf("%s@exit%d", cl.Label, i), fn.Pos(), p.st, g, cl.Src)
+				vc.curClauseProps = nil
 			}
 		}
 	}
